@@ -205,7 +205,7 @@ def _roland_model(mode=0):
         from vf.props import c02
         model = {"volumes": [("VolA", [0])], "performances": [("Perf0", [0])], "patches": [("Patch0", [0])],
                  "partials": [("Part0", [0, 1, 2])],
-                 "samples": [dict(name="Smp0", words=c02._words(500, 1)), dict(name="Smp1", words=c02._words(5000, 2), chain=[1, 0], mode=mode),
+                 "samples": [dict(name="Smp0", words=c02._words(500, 1)), dict(name="Smp1", words=c02._words(5000, 2), chain=[2, 1, 0], cluster_top=1, mode=mode),
                              dict(name="Smp2", words=c02._words(300, 3), mode=5)]}
         _RMODEL[mode] = rolandw.build(model)
     return _RMODEL[mode]
